@@ -216,6 +216,33 @@ func c12RunPrime(t *testing.T, r *verifmc.Run, a *c12Prime, extra func(f *bf.Fie
 			}
 		}
 	}
+	// integer -> element constructors over the signed boundary ladder, each into a junk-filled receiver
+	ladder := bf.SignedLadder(P, uint(P.BitLen()), a.name)
+	for _, pad := range []int{0, 5} {
+		pad := pad
+		f.CheckFromInt(r, "SetBytes", uint(8*a.size), bf.NonNegative(ladder), true, func(z bf.Elem, v *big.Int) bool {
+			a.setBytes(z, append(make([]byte, pad), v.Bytes()...))
+			return true
+		})
+	}
+	f.CheckFromInt(r, "SetString(dec)", uint(8*a.size), ladder, true, func(z bf.Elem, v *big.Int) bool { return a.setString(z, v.String()) == nil })
+	f.CheckFromInt(r, "SetString(hex)", uint(8*a.size), ladder, true, func(z bf.Elem, v *big.Int) bool {
+		s := "0x" + new(big.Int).Abs(v).Text(16)
+		if v.Sign() < 0 {
+			s = "-" + s
+		}
+		return a.setString(z, s) == nil
+	})
+	f.CheckFromInt(r, "UnmarshalBinary", uint(8*a.size), bf.NonNegative(ladder), true, func(z bf.Elem, v *big.Int) bool {
+		if v.BitLen() > 8*a.size {
+			return false
+		}
+		return a.unmarshal(z, v.FillBytes(make([]byte, a.size))) == nil
+	})
+	r.RequireCounter(a.name+".SetBytes.from-int", 80)
+	r.RequireCounter(a.name+".SetString(dec).from-int", 6)
+	r.RequireCounter(a.name+".SetString(hex).from-int", 6)
+	r.RequireCounter(a.name+".UnmarshalBinary.from-int", 6)
 	// SetUint64
 	for i, nn := range []uint64{0, 1, 2, 1<<32 - 1, 1 << 32, 1<<63 - 1, 1 << 63, ^uint64(0) - 1, ^uint64(0), 0xd201000000010000} {
 		z := a.newE()
